@@ -80,6 +80,10 @@ def gen(seed):
         life = {'notify': rng.random() < 0.3, 'dev': rng.choice(['A', 'A', 'A', 'B']),
                 'dirs': rng.choice(['rw', 'rw', 'ro+rw', 'ro', 'none', 'seed-ro']),
                 'crash': None}
+        if li > 0 and rng.random() < 0.2:
+            # somebody cleans the cache directory (or changes its permissions) after the Crazyflie object was created
+            life['vanish'] = {'which': rng.choice(['log', 'param', 'both']), 'how': rng.choice(['removed', 'unreadable']),
+                              'when': rng.choice(['before-open', 'before-open', 'second-connection'])}
         if li < nlives - 1 and rng.random() < 0.6:
             life['crash'] = {'at': rng.choice(['end', 'end', 'log-done', rng.uniform(0.0, 0.3)]),
                              'keep': [[rng.choice(['frac', 'frac', 'zero', 'all', 'minus1', 'one']), rng.random(),
@@ -175,6 +179,17 @@ def run_life(ctx, sim, fs, plan, li, life, complete, Crazyflie):
     st = {}
     crash = life.get('crash')
 
+    def record_complete():
+        # complete contents written in this life (before any crash truncation)
+        for path, full in fs.dirty.items():
+            kind = None
+            if path.endswith('%08X.json' % dev.log_crc) and b'LogTocElement' in full:
+                kind = 'log'
+            if path.endswith('%08X.json' % dev.param_crc) and b'ParamTocElement' in full:
+                kind = 'param'
+            if kind and full:
+                complete.setdefault(path, set()).add((kind, full))
+
     def on_connected(uri):
         cf = st['cf']
         d = common.compare_log_toc(cf, dev) + common.compare_param_toc(cf, dev)
@@ -195,6 +210,26 @@ def run_life(ctx, sim, fs, plan, li, life, complete, Crazyflie):
         st['cf'] = cf
         cf.connected.add_callback(on_connected)
         cf.connection_failed.add_callback(lambda uri, msg: st.__setitem__('failed', msg))
+        vanish = life.get('vanish')
+
+        def do_vanish():
+            names = []
+            if vanish['which'] in ('log', 'both'):
+                names.append('%08X.json' % dev.log_crc)
+            if vanish['which'] in ('param', 'both'):
+                names.append('%08X.json' % dev.param_crc)
+            for pth in sorted(fs.files):
+                if any(pth.endswith(nm) for nm in names):
+                    ctx.probe('cache file %s after the object was created' % vanish['how'])
+                    if vanish['how'] == 'removed':
+                        del fs.files[pth]
+                        fs.dirty.pop(pth, None)
+                        snapshot.pop(pth, None)
+                    else:
+                        fs.unreadable.add(pth)
+                        snapshot.pop(pth, None)
+        if vanish and vanish['when'] == 'before-open':
+            do_vanish()
         if life.get('notify') and dev.v2 and dev.param_toc:
             # the firmware reports changed parameter values while the connection is being set up
             def note():
@@ -221,6 +256,27 @@ def run_life(ctx, sim, fs, plan, li, life, complete, Crazyflie):
             ctx.violation('1', 'connection-failed-with-cache', 'life %d: %s' % (li, str(st['failed'])[:200]))
             return
         P.sim_sleep(0.3)
+        if vanish and vanish['when'] == 'second-connection' and not crash:
+            # same object, second connection: the files of the first one are gone by then
+            cf.close_link()
+            P.sim_sleep(0.2)
+            del dev.toc_requests[:]
+            st.pop('connected', None)
+            # what the second connection may legitimately load: the files as they are now, minus the vanished ones
+            record_complete()
+            snapshot.clear()
+            snapshot.update(fs.files)
+            do_vanish()
+            cf.open_link('sim://cf')
+            if not common.wait_until(sim, lambda: 'connected' in st or 'failed' in st, BOUND, 0.01):
+                ctx.violation('1', 'connect-never-finished', 'life %d, second connection after the cache files were %s: '
+                              'connected not signalled within %g s' % (li, vanish['how'], BOUND),
+                              [(t['thread'], t['waiting_on']) for t in sim.describe_threads()])
+                return
+            if 'failed' in st:
+                ctx.violation('1', 'connection-failed-with-cache', 'life %d: %s' % (li, str(st['failed'])[:200]))
+                return
+            P.sim_sleep(0.3)
         if not crash:
             cf.close_link()
             P.sim_sleep(0.2)
@@ -247,15 +303,7 @@ def run_life(ctx, sim, fs, plan, li, life, complete, Crazyflie):
                                   '%08X exists (candidates %r)' % (li, kind, crc, [(p, len(snapshot[p])) for p in cands]))
             elif n > 0:
                 ctx.probe('%s table downloaded' % kind)
-    # record complete contents written in this life (before any crash truncation)
-    for path, full in fs.dirty.items():
-        kind = None
-        if path.endswith('%08X.json' % dev.log_crc) and b'LogTocElement' in full:
-            kind = 'log'
-        if path.endswith('%08X.json' % dev.param_crc) and b'ParamTocElement' in full:
-            kind = 'param'
-        if kind and full:
-            complete.setdefault(path, set()).add((kind, full))
+    record_complete()
     if crash:
         keep = {}
         paths = sorted(fs.dirty)
@@ -286,3 +334,4 @@ def run_life(ctx, sim, fs, plan, li, life, complete, Crazyflie):
         fs.crash(keep)
     else:
         fs.clean_restart()
+    fs.unreadable.clear()
